@@ -97,6 +97,13 @@ def make_case(L):
             if sig in seen: continue
             seen.add(sig)
             v.append((sig, det, dict(src=doc.decode("latin-1"), options=oname, ext=ext)))
+        # the same document asked a second time of one engine: the id/href graph must be as sound as the first time
+        if L <= 2:
+            out2 = mmd.convert(doc, ext, 0, 0, 3)
+            for frag, det in analyse(out2, b"[Not cited]" in body, oname == "random-foot", oname == "random-labels"):
+                sig = "anchor:%s:%s" % (frag, oname)
+                if sig in seen: continue
+                seen.add(sig); v.append((sig + ":second-conversion-on-one-engine" if not any(x[0] == sig for x in v) else sig, det, dict(src=doc.decode("latin-1"), options=oname, ext=ext, call="second mmd_engine_convert on one engine")))
         # LaTeX: every \autoref has a \label
         tex = mmd.convert(doc, ext, 2)
         labels = set(re.findall(rb"\\label\{([^}]*)\}", tex))
